@@ -107,7 +107,11 @@ pub fn foreign_candidates(cfg: &FileCfg, t0_ns: i64) -> Vec<String> {
         c.push(format!("{prefix}{sep}{infix}.restart-abcd{sfx}"));
         c.push(format!("{prefix}{sep}{infix}.restart{sfx}"));
     }
-    for near in ["r0001", "r1", "r", "rX", "r0000a", "rCURRENT2", "rcurrent", "CURRENT", "r2024-03-10_11-30", "r2024-13-45_99-99-99", "r2024-03-10", "2024-03-10_11-30-30", "00001"] {
+    for near in [
+        "r0001", "r1", "r", "rX", "r0000a", "rCURRENT2", "rcurrent", "CURRENT", "r2024-03-10_11-30", "r2024-13-45_99-99-99", "r2024-03-10", "2024-03-10_11-30-30", "00001",
+        // digits that are numeric in Unicode but not ASCII (full-width, Arabic-Indic, superscript)
+        "r0000５", "r１２３４５", "r١٢٣٤٥", "r١٢٣", "r000²0", "r２０２４-03-10_11-30-30", "r2024-03-10_11-30-3０",
+    ] {
         c.push(format!("{prefix}{sep}{near}{sfx}"));
     }
     if cfg.rot.is_some() && !(prefix.is_empty() && sfx.is_empty()) {
